@@ -19,6 +19,7 @@ import (
 	"bytes"
 	"fmt"
 	"sort"
+	"strings"
 	"time"
 
 	"github.com/33cn/chain33/blockchain"
@@ -43,6 +44,39 @@ var serveExecs = []string{"none", "token", "coins", "trade"}
 type servePlan struct {
 	Mode   string `json:"mode"` // "producer" | "mined" | "raw"
 	Titles []int  `json:"titles"`
+	Main   int64  `json:"main,omitempty"` // para-chain node: MainHeight of the block (decides the fork there)
+}
+
+// the para-chain node runs the chain of this title (id 4)
+const paraNodeTitle = "user.p.b."
+
+// blocks for the para-chain node, all with the list in TransactionSort order after the fork
+func genParaPlans(seed uint64, thorough bool) []servePlan {
+	r := hlib.NewRng(seed ^ 0x9a7a)
+	ps := []servePlan{
+		{"raw", []int{4, 4, 4}, 3}, {"raw", []int{4, 0, 4, 0, 2}, 5}, // before the fork (main height < 6)
+		{"producer", []int{4}, 6}, {"producer", []int{4, 4}, 7}, {"producer", []int{4, 4, 4, 4, 4}, 8},
+		{"producer", []int{0, 0, 0}, 9}, // one title: guard holds
+		{"producer", []int{0, 4}, 10},   // two one-transaction chains: the single-layer root happens to be the same
+		{"producer", []int{0, 0, 4}, 11}, {"producer", []int{0, 4, 4, 4}, 12}, {"producer", []int{2, 4, 4}, 13},
+		{"producer", []int{0, 0, 1, 1, 4, 4, 4}, 14},
+	}
+	n := 4
+	if thorough {
+		n = 60
+	}
+	for i := 0; i < n; i++ {
+		k := r.Range(1, 12)
+		t := make([]int, k)
+		for j := range t {
+			t[j] = 4
+			if r.Chance(1, 4) && i%2 == 1 {
+				t[j] = []int{0, 0, 2, 5}[r.Intn(4)]
+			}
+		}
+		ps = append(ps, servePlan{"producer", t, int64(20 + i)})
+	}
+	return ps
 }
 
 func titleString(t int) string {
@@ -148,23 +182,23 @@ func genServePlans(seed uint64, thorough bool) []servePlan {
 	r := hlib.NewRng(seed ^ 0x5e57e)
 	var ps []servePlan
 	// heights 1..5: before the fork, any order
-	ps = append(ps, servePlan{"raw", []int{0}})
-	ps = append(ps, servePlan{"raw", []int{2, 0, 1}})
-	ps = append(ps, servePlan{"producer", genMix(r, 5, 2)})
-	ps = append(ps, servePlan{"mined", []int{3, 0, 3, 1, 0}})
-	ps = append(ps, servePlan{"raw", genMix(r, 6, 1)})
+	ps = append(ps, servePlan{Mode: "raw", Titles: []int{0}})
+	ps = append(ps, servePlan{Mode: "raw", Titles: []int{2, 0, 1}})
+	ps = append(ps, servePlan{Mode: "producer", Titles: genMix(r, 5, 2)})
+	ps = append(ps, servePlan{Mode: "mined", Titles: []int{3, 0, 3, 1, 0}})
+	ps = append(ps, servePlan{Mode: "raw", Titles: genMix(r, 6, 1)})
 	// after the fork: fixed small shapes first
 	fixed := [][]int{
 		{0}, {3}, {0, 0}, {0, 2}, {1, 1, 1}, {0, 0, 0, 1, 2, 2, 4}, {1, 3}, {2, 3, 4}, {0, 0, 0, 0, 0, 5},
 	}
 	for _, f := range fixed {
-		ps = append(ps, servePlan{"producer", f})
+		ps = append(ps, servePlan{Mode: "producer", Titles: f})
 	}
-	ps = append(ps, servePlan{"raw", []int{2, 0}})          // para, main (the refutation witness)
-	ps = append(ps, servePlan{"raw", []int{4, 0, 1, 4}})    // b main a b
-	ps = append(ps, servePlan{"raw", []int{0, 1, 0}})       // main a main
-	ps = append(ps, servePlan{"raw", []int{4, 2, 2, 0, 0}}) // reverse order
-	ps = append(ps, servePlan{"raw", []int{0, 0, 1, 3, 3}}) // in order: guard holds
+	ps = append(ps, servePlan{Mode: "raw", Titles: []int{2, 0}})          // para, main (the refutation witness)
+	ps = append(ps, servePlan{Mode: "raw", Titles: []int{4, 0, 1, 4}})    // b main a b
+	ps = append(ps, servePlan{Mode: "raw", Titles: []int{0, 1, 0}})       // main a main
+	ps = append(ps, servePlan{Mode: "raw", Titles: []int{4, 2, 2, 0, 0}}) // reverse order
+	ps = append(ps, servePlan{Mode: "raw", Titles: []int{0, 0, 1, 3, 3}}) // in order: guard holds
 	nProd, nRaw, nMined, maxPer := 22, 14, 3, 7
 	if thorough {
 		nProd, nRaw, nMined, maxPer = 220, 160, 12, 9
@@ -174,13 +208,13 @@ func genServePlans(seed uint64, thorough bool) []servePlan {
 		if thorough && r.Chance(1, 12) {
 			mp = 100 // child chains above the 80-leaf threshold of the parallel root
 		}
-		ps = append(ps, servePlan{"producer", genMix(r, mp, r.Intn(3))})
+		ps = append(ps, servePlan{Mode: "producer", Titles: genMix(r, mp, r.Intn(3))})
 	}
 	for i := 0; i < nRaw; i++ {
-		ps = append(ps, servePlan{"raw", genMix(r, maxPer, r.Range(0, 3))})
+		ps = append(ps, servePlan{Mode: "raw", Titles: genMix(r, maxPer, r.Range(0, 3))})
 	}
 	for i := 0; i < nMined; i++ {
-		ps = append(ps, servePlan{"mined", genMix(r, 5, 2)})
+		ps = append(ps, servePlan{Mode: "mined", Titles: genMix(r, 5, 2)})
 	}
 	return ps
 }
@@ -192,6 +226,7 @@ type snode struct {
 	cl    queue.Client
 	priv  crypto.PrivKey
 	nonce int64
+	para  bool
 }
 
 func (w *snode) miner(ty int64) {
@@ -201,16 +236,24 @@ func (w *snode) miner(ty int64) {
 	}
 }
 
-func newServeNode() *snode {
-	cfg := types.NewChain33Config(types.GetDefaultCfgstring())
+func newServeNode(para bool) *snode {
+	cs := types.GetDefaultCfgstring()
+	if para {
+		cs = strings.Replace(cs, `Title="local"`, `Title="`+paraNodeTitle+`"`, 1)
+	}
+	cfg := types.NewChain33Config(cs)
+	if cfg.IsPara() != para {
+		panic("para title not applied")
+	}
 	mc := cfg.GetModuleConfig()
+	mc.BlockChain.IsParaChain = para
 	mc.BlockChain.Driver = "memdb"
 	mc.Store.Driver = "memdb"
 	mc.Wallet.Driver = "memdb"
 	cfg.SetFork("ForkRootHash", serveFork)
 	m := testnode.NewWithConfig(cfg, nil)
 	log15.Root().SetHandler(log15.DiscardHandler()) // getMultiLayerProofs logs every refused query
-	w := &snode{m: m, cfg: cfg, chain: m.GetBlockChain(), cl: m.GetClient(), priv: m.GetGenesisKey(), nonce: 1}
+	w := &snode{m: m, cfg: cfg, chain: m.GetBlockChain(), cl: m.GetClient(), priv: m.GetGenesisKey(), nonce: 1, para: para}
 	w.miner(types.EventMinerStop)
 	deadline := time.Now().Add(30 * time.Second)
 	for w.chain.GetBlockHeight() < 0 {
@@ -249,17 +292,25 @@ func (w *snode) tip() *types.Block {
 	return d.Block
 }
 
-// connect a peer block; producer = put together by util.CreateNewBlock
-func (w *snode) connect(txs []*types.Transaction, producer bool) error {
+// connect a peer block; producer = put together by util.CreateNewBlock (on the para-chain
+// node: like CreateNewBlock, with the fork decided by the main height)
+func (w *snode) connect(txs []*types.Transaction, producer bool, mainHeight int64) error {
 	par := w.tip()
 	var b *types.Block
-	if producer {
+	if producer && w.para {
+		b = &types.Block{Height: par.Height + 1, ParentHash: par.Hash(w.cfg)}
+		b.Txs = append(b.Txs, txs...)
+		if w.cfg.IsFork(mainHeight, "ForkRootHash") {
+			b.Txs = types.TransactionSort(b.Txs)
+		}
+	} else if producer {
 		b = util.CreateNewBlock(w.cfg, par, txs)
 	} else {
 		b = &types.Block{Height: par.Height + 1, ParentHash: par.Hash(w.cfg)}
 		b.Txs = append(b.Txs, txs...)
 	}
 	b.Difficulty = 0x1f2fffff
+	b.MainHeight = mainHeight
 	b.BlockTime = par.BlockTime // not ahead of the clock: the node's own miner stamps later blocks with Now()
 	d, _, err := util.ExecBlock(w.cl, par.StateHash, b, false, true, false)
 	if err != nil {
@@ -363,6 +414,9 @@ func emitServeBlock(o *hlib.Out, w *snode, seed uint64, tier string, height int6
 	}
 	blk := d.Block
 	fork := w.cfg.IsFork(height, "ForkRootHash")
+	if w.para {
+		fork = w.cfg.IsFork(blk.MainHeight, "ForkRootHash")
+	}
 	it := newIntern()
 	n := len(blk.Txs)
 	titles := make([]int, n)
@@ -400,7 +454,7 @@ func emitServeBlock(o *hlib.Out, w *snode, seed uint64, tier string, height int6
 		}
 		it.refMulti(st, sf)
 		hp, err := w.chain.LoadParaTxByHeight(height, "", 0, 1)
-		if err == nil {
+		if err == nil && !w.para {
 			var rh [][]byte
 			for _, r := range hp.Items {
 				id, known := tids[r.Title]
@@ -451,22 +505,45 @@ func emitServeBlock(o *hlib.Out, w *snode, seed uint64, tier string, height int6
 	if mode == "mined" {
 		kind += "-mined"
 	}
-	term := hlib.App("CServe", hlib.Bool(fork), hlib.Bool(mode == "raw"), strs(txl), strs(it.triples), hlib.N(uint64(it.id(blk.TxHash))),
+	if w.para {
+		kind = "serve-paranode-pre-fork"
+		if fork {
+			kind = "serve-paranode-mixed(unrestricted)"
+			if len(refScan(titles)) <= 1 && isSortedInts(titles) {
+				kind = "serve-paranode-1title"
+			}
+		}
+	}
+	term := hlib.App("CServe", hlib.Bool(fork), hlib.Bool(w.para), hlib.Bool(mode == "raw"), strs(txl), strs(it.triples), hlib.N(uint64(it.id(blk.TxHash))),
 		strs(rows), hlib.List(reps))
 	o.Emit(kind, n >= 2, term, serveIn{Seed: seed, Tier: tier, Serve: plan, Sub: sub, Plan: mode},
 		map[string]interface{}{"height": height, "ntx": n, "fork": fork, "titles": titles, "replies": nrep,
-			"rows": len(rows) / 5})
+			"rows": len(rows) / 5, "paranode": w.para})
 }
 
-// runServe drives the node; only > 0 emits just the blocks of that plan (replay)
+// runServe drives the main-chain node, then the para-chain node; only > 0 emits just the
+// blocks of that plan (replay; para-chain plans are numbered after the main-chain ones)
 func runServe(o *hlib.Out, opts hlib.Opts, only int) int {
-	tids := titleIDs()
 	plans := genServePlans(opts.Seed, opts.Thorough())
-	w := newServeNode()
+	pplans := genParaPlans(opts.Seed, opts.Thorough())
+	n := 0
+	if only <= len(plans) {
+		n += runServeNode(o, opts, false, plans, 0, only)
+	}
+	if only <= 0 || only > len(plans) {
+		n += runServeNode(o, opts, true, pplans, len(plans), only)
+	}
+	return n
+}
+
+func runServeNode(o *hlib.Out, opts hlib.Opts, para bool, plans []servePlan, base int, only int) int {
+	tids := titleIDs()
+	w := newServeNode(para)
 	defer w.m.Close()
-	r := hlib.NewRng(opts.Seed ^ 0x7a11)
+	r := hlib.NewRng(opts.Seed ^ 0x7a11 ^ uint64(base))
 	emitted, rejected := 0, 0
-	for pi, p := range plans {
+	for k, p := range plans {
+		pi := base + k
 		h0 := w.chain.GetBlockHeight()
 		if only > 0 && pi+1 > only {
 			break
@@ -478,14 +555,17 @@ func runServe(o *hlib.Out, opts hlib.Opts, only int) int {
 		var err error
 		switch p.Mode {
 		case "producer":
-			err = w.connect(txs, true)
+			err = w.connect(txs, true, p.Main)
 		case "raw":
-			err = w.connect(txs, false)
+			err = w.connect(txs, false, p.Main)
 		default:
 			err = w.mine(txs)
 		}
 		if err != nil {
 			fork := w.cfg.IsFork(h0+1, "ForkRootHash")
+			if para {
+				fork = w.cfg.IsFork(p.Main, "ForkRootHash")
+			}
 			if p.Mode == "raw" && fork && !isSortedInts(p.Titles) && w.chain.GetBlockHeight() == h0 {
 				// a node that refuses a block whose list is not in TransactionSort order is fine
 				rejected++
@@ -502,10 +582,10 @@ func runServe(o *hlib.Out, opts hlib.Opts, only int) int {
 			for i, t := range p.Titles {
 				txl = append(txl, t, 2*i+1, 2*i+2)
 			}
-			term := hlib.App("CServe", hlib.Bool(fork), hlib.Bool(p.Mode == "raw"), strs(txl), "[]", hlib.N(0), "[]", "[]")
+			term := hlib.App("CServe", hlib.Bool(fork), hlib.Bool(para), hlib.Bool(p.Mode == "raw"), strs(txl), "[]", hlib.N(0), "[]", "[]")
 			o.Emit("serve-not-connected", len(txs) >= 2, term,
 				serveIn{Seed: opts.Seed, Tier: opts.Tier, Serve: pi + 1, Plan: p.Mode},
-				map[string]interface{}{"height": h0 + 1, "error": err.Error(), "titles": p.Titles})
+				map[string]interface{}{"height": h0 + 1, "error": err.Error(), "titles": p.Titles, "paranode": para})
 			emitted++
 			continue
 		}
